@@ -29,6 +29,7 @@ func (q *WriteDedupQueue) GetChunk(id ChunkID) (*Chunk, error) {
 	q.storeChunkQueue.mu.Lock()
 	req, isInFlight := q.storeChunkQueue.requests[id]
 	q.storeChunkQueue.mu.Unlock()
+	verifYield("wdedup.get.looked")
 
 	if isInFlight {
 		data, err := req.wait()
@@ -53,6 +54,7 @@ func (q *WriteDedupQueue) HasChunk(id ChunkID) (bool, error) {
 func (q *WriteDedupQueue) StoreChunk(chunk *Chunk) error {
 	id := chunk.ID()
 	req, isInFlight := q.storeChunkQueue.loadOrStore(id)
+	verifYield("wdedup.store.loaded")
 
 	if isInFlight { // The request is already in-flight, wait for it to come back
 		_, err := req.wait()
@@ -61,10 +63,12 @@ func (q *WriteDedupQueue) StoreChunk(chunk *Chunk) error {
 
 	// This request is the first one for this chunk, execute as normal
 	err := q.S.StoreChunk(chunk)
+	verifYield("wdedup.store.premark")
 
 	// Signal to any others that wait for us that we're done, they'll use our data
 	// and don't need to hit the store themselves
 	req.markDone(chunk, err)
+	verifYield("wdedup.store.marked")
 
 	// We're done, drop the request from the queue to avoid keeping all the chunk data
 	// in memory after the request is done
